@@ -1,53 +1,67 @@
 #!/usr/bin/env python3
-"""Generates /verif/MANIFEST.json from the table below (kept in one place so
-MANIFEST stays valid while checks are added)."""
-import json, os, sys
+"""Generates /verif/MANIFEST.json from the checker's own property/rule table
+(`lovcheck -dumpprops`), so the manifest cannot drift from what is checked."""
+import json, os, subprocess, sys
 
 HERE = os.path.dirname(os.path.dirname(os.path.abspath(__file__)))
 
-# property -> (engine, technique, level text, level note, design_ref)
-CLAIMS = {
- "C18": ("E1-locks",
-         "SSA lockset dataflow (pairing, guarded-by, outermost-lock order)",
-         "Structural necessary conditions of C18, decided exhaustively over every function of client/cache/server/inmemory: every mutex acquired is released or deferred on every return path (L1, with acquire-wrapper summaries); every access to a lock-guarded field happens with its lock must-held, in write mode for writes, through all static callers of unexported helpers (L2); rpcMutex/txnMutex are never acquired while holding a lock that is elsewhere taken under them (L3'). A removed unlock, a new early return inside a locked region, an unguarded access or an inverted lock order is reported with file:line. It does not decide absence of all data races or general deadlock freedom.",
-         "Trusts go/ssa and the frozen guarded-by table; fields ordered by channels/WaitGroup are outside the table; lock classes are per struct field (not per object).",
-         "DESIGN.md §4 E1, §5 C18"),
- "C19": ("E4-totality",
-         "SSA dominance + value-equivalence proof obligations (index bounds, checked assertions, nil guards, hashable keys, non-zero divisors)",
-         "Totality obligations on the code that consumes untrusted input, decided for every site: in every UnmarshalJSON of package ovsdb and the functions they reach, each slice/string index needs a dominating length test on an equivalent operand (P-IDX), each single-result type assertion a dominating successful comma-ok assertion/type-switch arm (P-ASSERT), each optional pointer member a dominating nil test (P-NIL), each interface-typed map key a comparable dynamic type on every path (P-HASH); on the transaction path every optional member of an Operation is nil-tested before use (P-NIL-TXN) and every integer / and % has a non-zero divisor locally or through the ValidateMutation gate pair (P-DIV). An undischarged obligation is a concrete panic site. It does not cover assertions in the transaction path that rely on upstream schema validation, nor resource exhaustion.",
-         "Trusts go/ssa; equal loads of an address-taken local are identified when no write can occur between them; encoding/json does not retain &local. Scope: ovsdb decoders + functions reachable from OvsdbServer.Transact.",
-         "DESIGN.md §4 E4, §5 C19"),
+TECHNIQUE = {
+ "C01": "protocol-table agreement (typed AST) + SSA lockset dataflow",
+ "C02": "who-may-write / provenance analysis (SSA) + dominance of the error scan",
+ "C03": "exhaustiveness of sibling switch tables (typed AST) + must-pass-through guards (SSA dominance)",
+ "C04": "who-may-write + SSA value provenance of the reference index + carrier exhaustiveness",
+ "C05": "index write discipline: SSA path rule on owner-checked removal, who-may-write, lockset",
+ "C06": "must-pass-through ordering of commit-time checks (SSA dominance) + constant-argument wiring",
+ "C07": "protocol-table agreement + must-pass-through / once-only path rules + nil-guard obligations (SSA)",
+ "C08": "exhaustiveness tables + dominance rule on the condition-evaluation loop + provenance",
+ "C09": "exhaustiveness of conversion tables + dominance of type guards",
+ "C10": "ownership (provenance) analysis of in-place algorithm arguments over SSA and static callers",
+ "C12": "encoder/decoder slot-table agreement by taint propagation over the typed AST",
+ "C13": "SSA value-provenance (freshness) analysis with interprocedural summaries",
+ "C14": "event/mutation pairing by SSA dominance + channel producer/consumer census",
+ "C15": "member coverage by type, two-phase (write-before-read) path rule, guard-locality rule (SSA)",
+ "C16": "interprocedural typestate (purge/populate) analysis over SSA with one guard refinement",
+ "C17": "SSA lockset dataflow (held-across, outermost lock, registration under lock) + who-may-write",
+ "C18": "SSA lockset dataflow: pairing on all return paths, guarded-by, outermost-lock order",
+ "C19": "totality proof obligations over SSA (index bounds, checked assertions, nil guards, hashable keys, non-zero divisors)",
+ "C20": "generator/mapper table agreement (typed AST) + map-iteration-order lint + deep-copy field coverage",
 }
+
+NOTE = ("Trusted base: go/types, go/ssa and dominators of golang.org/x/tools v0.29.0; the frozen rule tables in /verif/checker "
+        "(guarded-by table, exhaustiveness sites, in-place function table, axioms: model.Clone/CreateModel/NewModel return fresh objects); "
+        "the Go standard library and cenkalti/rpc2 behave as documented. Scope: the 16 type-checking non-test packages. "
+        "The check decides the structural clause stated in level_claimed.text (a necessary condition of the property), not its value-level behaviour.")
 
 NOT_APPLICABLE = {
- "C11": "the merge laws (first old / last new, cancellation, modify composition) are algebra over runtime rows; no structural necessary condition that is not merely today's implementation was found (DESIGN.md §6)",
+ "C11": "the merge laws (first old / last new, cancellation, modify composition w.r.t. the original) are algebra over runtime rows; the only structural facts available (e.g. 'old of the accumulator is assigned once') would encode today's implementation rather than a necessary condition of the law, so a static rule would be a brittle proxy (DESIGN.md §6)",
 }
-
-PENDING_REASON = "static check designed (DESIGN.md §5) but not built in this revision; not claimed until it is"
 
 def main():
     props = [json.loads(l)["id"] for l in open(os.path.join(HERE, "properties.jsonl"))]
+    dump = json.loads(subprocess.check_output([os.path.join(HERE, "bin", "lovcheck"), "-dumpprops"]))
+    table = {p["ID"]: p for p in dump}
     checks = []
     for pid in props:
-        if pid not in CLAIMS:
+        if pid not in table:
             continue
-        eng, tech, text, note, ref = CLAIMS[pid]
+        t = table[pid]
+        rules = ", ".join(r["id"] for r in t["Rules"])
+        text = (t["Explanation"] + " Not covered: " + t["NotCovered"] + ". Every obligation is enumerated exhaustively over its scope on each run "
+                "from /repo's current working tree; an obligation that cannot be discharged, an anchor that no longer resolves, or a rule matching fewer "
+                "instances than confirmed by hand fails the check. Level 'other': an exact static decision of a named structural clause, stronger than sampling "
+                "(all paths, all call sites) but not a proof of the behavioural property.")
         checks.append({
             "property_id": pid,
             "quick_cmd": "./run.sh %s quick" % pid,
             "thorough_cmd": "./run.sh %s thorough" % pid,
             "evidence_file": "/verif/evidence/%s.json" % pid,
             "replay_cmd_template": "./bin/lovcheck -replay {path}",
-            "engine": eng,
-            "technique": "static analysis: " + tech,
-            "level_claimed": {"category": "other", "text": text, "design_ref": ref},
-            "level_note": note,
+            "engine": "lovcheck",
+            "technique": "static analysis: " + TECHNIQUE[pid] + " [rules " + rules + "]",
+            "level_claimed": {"category": "other", "text": text, "design_ref": "DESIGN.md §4 (rule engines), §5 " + pid},
+            "level_note": NOTE,
         })
-    na = []
-    for pid in props:
-        if pid in CLAIMS:
-            continue
-        na.append({"property_id": pid, "reason": NOT_APPLICABLE.get(pid, PENDING_REASON)})
+    na = [{"property_id": pid, "reason": NOT_APPLICABLE[pid]} for pid in props if pid not in table]
     m = {
         "version": 1,
         "setup_cmd": "cd /verif/checker && GOFLAGS=-mod=mod GOPROXY=off GOSUMDB=off GOTOOLCHAIN=local GOWORK=off go build -o /verif/bin/lovcheck .",
@@ -59,11 +73,12 @@ def main():
             "add_only": True,
         },
         "engines": [
-            {"name": "lovcheck", "path": "/verif/checker", "serves_properties": sorted(CLAIMS), "kind_free_text": "repository-specific static analyser (go/packages + go/types + go/ssa, x/tools v0.29.0): lockset dataflow, value provenance, codec/table agreement, exhaustiveness, typestate"},
+            {"name": "lovcheck", "path": "/verif/checker", "serves_properties": sorted(table),
+             "kind_free_text": "repository-specific static analyser (go/packages + go/types + go/ssa, x/tools v0.29.0): lockset dataflow, value provenance, codec/table agreement, exhaustiveness, typestate, totality obligations; positive controls as in-memory overlay variants"},
         ],
         "checks": checks,
         "not_applicable": na,
-        "notes": "All claims are at level 'other': each decides a named structural clause of its property from the source of /repo's working tree on every run; nothing from /repo is executed. Known/fixed findings: /verif/known_findings.json. Positive controls (seeded in-memory variants) are re-run on every check and recorded in the evidence.",
+        "notes": "All claims are at level 'other': each decides a named structural clause of its property from the source of /repo's working tree on every run; nothing from /repo is executed. Known/fixed findings: /verif/known_findings.json (all entries are 'fixed', i.e. suppress nothing). Positive controls (seeded in-memory variants of the current tree) are re-run by every check and recorded in the evidence. Seeded property-breaking changes used to test the checks: /verif/seeded/.",
     }
     json.dump(m, open(os.path.join(HERE, "MANIFEST.json"), "w"), indent=1)
     print("wrote MANIFEST.json:", len(checks), "checks,", len(na), "not claimed")
